@@ -28,6 +28,7 @@ static bool parse19(const std::string &s, C19Case &c) { auto f = split(s, '|'); 
 struct FV { bool ok = true; std::string symptom, detail; };
 
 #include <sys/resource.h>
+#include <sys/wait.h>
 static const char *ODD[] = {"/sys/devices/system/cpu/online", "/proc/self/cmdline", "/dev/null", "/proc/self/status", "/sys/kernel/mm/transparent_hugepage/enabled", "/proc/self/maps"};
 // special 4: files whose size (fstat) and content (read) disagree, devices: the call comes back with EXIT_SUCCESS or EXIT_FAILURE.
 // special 5: many failing attempts (directory, missing file, odd files) in a process that can open only a few more files; a good file afterwards still
@@ -42,6 +43,18 @@ static FV check19_special(const C19Case &c) {
     bool usable = (asm_set_offset(a, 0), asm_assemble_str(a, "nop\n") == 0); asm_destroy_instance(a);
     if (rc != 0 && rc != 1) return bad("return-value", std::string(path) + ": returned " + std::to_string(rc));
     if (!usable) return bad("unusable", std::string("instance unusable after ") + path);
+    return v;
+  }
+  if (c.special == 6) { // a readable file that belongs to somebody else, read by a process without privileges (a forked child that gives up root)
+    if (geteuid() != 0) return v;
+    char tmpl[] = "/tmp/c19nr.XXXXXX"; char *dir = mkdtemp(tmpl); if (!dir) return v; chmod(dir, 0755); std::string fp = std::string(dir) + "/prog.asm", prog = "mov rax, 0x1122334455667788\nadd rcx, 5\nret\n"; write_file(fp, prog); chmod(fp.c_str(), 0644);
+    fflush(nullptr); pid_t pid = fork();
+    if (pid == 0) { if (setgid(65534) != 0 || setuid(65534) != 0) _exit(77); std::vector<uint8_t> b1(4096, 0xcc), b2(4096, 0xcc); assemblyline_t a1 = asm_create_instance(b1.data(), 4096), a2 = asm_create_instance(b2.data(), 4096); std::vector<char> p(fp.begin(), fp.end()); p.push_back(0); int c1 = 0, c2 = 0; std::vector<char> w(prog.begin(), prog.end()); w.push_back(0);
+      int r1 = c.mode == 1 ? asm_assemble_file_counting_chunks(a1, p.data(), 16, &c1) : asm_assemble_file(a1, p.data()), r2 = c.mode == 1 ? asm_assemble_string_counting_chunks(a2, w.data(), 16, &c2) : asm_assemble_str(a2, prog.c_str());
+      _exit(r1 == r2 && c1 == c2 && asm_get_offset(a1) == asm_get_offset(a2) && b1 == b2 ? 0 : 1); }
+    int st = 0; waitpid(pid, &st, 0); unlink(fp.c_str()); rmdir(dir);
+    if (WIFEXITED(st) && WEXITSTATUS(st) == 77) return v;   // privileges cannot be dropped here
+    if (!WIFEXITED(st) || WEXITSTATUS(st) != 0) return bad("other-owner", "a process without privileges reading a world-readable file of another owner: the file call differs from the string call on the same contents (child status " + std::to_string(st) + ")");
     return v;
   }
   struct rlimit old; getrlimit(RLIMIT_NOFILE, &old); int top = open("/dev/null", O_RDONLY); if (top >= 0) close(top); struct rlimit lim = old; lim.rlim_cur = (rlim_t)(top + 24); if (lim.rlim_cur < old.rlim_cur) setrlimit(RLIMIT_NOFILE, &lim);
@@ -173,6 +186,7 @@ void prop_c19(hz::Ctx &ctx) {
   }
   for (int sp = 1; sp <= 2; sp++) for (int mode = 0; mode < 2; mode++) { C19Case c; c.special = sp; c.mode = mode; if (!ctx.take()) continue; std::string id = ser19(c); if (!ctx.begin(id, sp == 1 ? "nonexistent path" : "directory")) continue; ctx.cls("part:missing"); ctx.nontrivial(id); FV v = check19(c); if (!v.ok) ctx.fail(fail19(c, v)); }
   for (int k = 0; k < 6; k++) for (int mode = 0; mode < 2; mode++) for (int ch : {0, 16, 17}) { C19Case c; c.special = 4; c.start = k; c.mode = mode; c.chunk = ch; if (!ctx.take()) continue; std::string id = ser19(c); if (!ctx.begin(id, ODD[k])) continue; ctx.cls("part:odd-files"); ctx.nontrivial(id); FV v = check19(c); if (ctx.want_sample()) ctx.put_sample(std::string(ODD[k]) + " -> " + (v.ok ? "returned" : v.detail)); if (!v.ok) ctx.fail(fail19(c, v)); }
+  for (int mode = 0; mode < 2; mode++) { C19Case c; c.special = 6; c.mode = mode; if (!ctx.take()) continue; std::string id = ser19(c); if (!ctx.begin(id, "unprivileged reader, file of another owner")) continue; ctx.cls("part:unprivileged-reader"); ctx.nontrivial(id); FV v = check19(c); if (ctx.want_sample()) ctx.put_sample(std::string("a process without privileges reads a world-readable file owned by root -> ") + (v.ok ? "same as the string call" : v.detail)); if (!v.ok) ctx.fail(fail19(c, v)); }
   for (int mode = 0; mode < 2; mode++) { C19Case c; c.special = 5; c.mode = mode; if (!ctx.take()) continue; std::string id = ser19(c); if (!ctx.begin(id, "120 failing attempts, then a readable file")) continue; ctx.cls("part:many-failing-attempts"); ctx.nontrivial(id); FV v = check19(c); if (ctx.want_sample()) ctx.put_sample(std::string("120 failing file attempts with few descriptors left, then a readable file -> ") + (v.ok ? "assembles like its contents" : v.detail)); if (!v.ok) ctx.fail(fail19(c, v)); }
   // rapidcheck: arbitrary sizes up to several pages
   auto gen_case = rc::gen::apply([&](int size, int seed, int combo, int mode, int chunk, bool nl, bool crlf, bool failing, int start) { hz::Rng rr((uint64_t)seed); C19Case c; c.content = sized_content(P, rr, (size_t)size, failing, nl, crlf); c.combo = combo; c.mode = mode; c.chunk = chunk - 3; c.start = start; c.special = (seed & 3) == 0 ? 3 : 0;
@@ -192,7 +206,7 @@ void prop_c19(hz::Ctx &ctx) {
 struct C17Case { int scenario = 0; long fail_at = 0, fail_at2 = 0; uint64_t seed = 1, poolseed = 1; };
 static std::string ser17(const C17Case &c) { return "C17|" + std::to_string(c.poolseed) + "|" + std::to_string(c.seed) + "|" + std::to_string(c.scenario) + "|" + std::to_string(c.fail_at) + "|" + std::to_string(c.fail_at2); }
 static bool parse17(const std::string &s, C17Case &c) { auto f = split(s, '|'); if (f.size() != 6 || f[0] != "C17") return false; c.poolseed = strtoull(f[1].c_str(), nullptr, 10); c.seed = strtoull(f[2].c_str(), nullptr, 10); c.scenario = atoi(f[3].c_str()); c.fail_at = atol(f[4].c_str()); c.fail_at2 = atol(f[5].c_str()); return true; }
-static const char *SCN[] = {"create (library-managed buffer)", "create (caller buffer)", "long assembly with growth", "asm_assemble_file", "asm_assemble_file_counting_chunks", "asm_create_bin_file", "asm_assemble_file of a long program (growth)", "asm_assemble_file of an empty file", "asm_assemble_file_counting_chunks of an empty file"};
+static const char *SCN[] = {"create (library-managed buffer)", "create (caller buffer)", "long assembly with growth", "asm_assemble_file", "asm_assemble_file_counting_chunks", "asm_create_bin_file", "asm_assemble_file of a long program (growth)", "asm_assemble_file of an empty file", "asm_assemble_file_counting_chunks of an empty file", "asm_set_offset far behind the code, then assembly"};
 
 struct Step { std::string api; bool failed_call_here = false; };
 struct FI { bool ok = true; std::string symptom, detail; long calls = 0; std::string faulted; std::string trace; };
@@ -235,6 +249,10 @@ static FI run17(const Pool &P, const C17Case &c) {
                           : api(fit ? "asm_assemble_str(long, chunk fitting)" : "asm_assemble_str(long)", [&] { return asm_assemble_str(a, prog_long.c_str()); }, rc); if (hit && rc != EXIT_FAILURE) { intact(""); asm_destroy_instance(a); return bad("fault-ignored", "growing the buffer failed (" + v.faulted + ") but the call returned " + std::to_string(rc)); } if (!hit && rc != 0) { asm_destroy_instance(a); return bad("harness", "long program failed without fault"); } break;
     case 3: case 6: if (fit) asm_set_chunk_size(a, fit);
       hit = counting_main ? api("asm_assemble_file_counting_chunks(long)", [&] { int cc = 0; return asm_assemble_file_counting_chunks(a, pth.data(), cchunk, &cc); }, rc) : api("asm_assemble_file", [&] { return asm_assemble_file(a, pth.data()); }, rc); if (hit && rc != EXIT_FAILURE) { asm_destroy_instance(a); return bad("fault-ignored", v.faulted + " failed but asm_assemble_file returned " + std::to_string(rc)); } if (!hit && rc != 0) { asm_destroy_instance(a); return bad("harness", "file program failed without fault"); } break;
+    case 9: { int far = off1 + 13000 + (int)(c.seed % 7) * 6007; asm_set_offset(a, far);
+      hit = api("asm_assemble_str(at a far offset)", [&] { return asm_assemble_str(a, prog_small.c_str()); }, rc); if (hit && rc != EXIT_FAILURE) { intact(""); asm_destroy_instance(a); return bad("fault-ignored", "growing the buffer failed (" + v.faulted + ") but the call returned " + std::to_string(rc)); } if (!hit && rc != 0) { asm_destroy_instance(a); return bad("harness", "assembly at a far offset failed without fault"); }
+      if (rc != 0) asm_set_offset(a, off1);   /* back to the end of the earlier code for the steps below */ else asm_set_offset(a, off1);
+      break; }
     case 7: hit = api("asm_assemble_file(empty)", [&] { return (c.seed & 1) ? assemble_file(a, pth.data()) : asm_assemble_file(a, pth.data()); }, rc); if (hit && rc != EXIT_FAILURE) { asm_destroy_instance(a); return bad("fault-ignored", v.faulted + " failed but asm_assemble_file returned " + std::to_string(rc)); } if (!hit && rc != 0) { asm_destroy_instance(a); return bad("harness", "empty file failed without fault"); } break;
     case 8: hit = api("asm_assemble_file_counting_chunks(empty)", [&] { return asm_assemble_file_counting_chunks(a, pth.data(), cchunk4, &cnt); }, rc); if (hit && rc != EXIT_FAILURE) { asm_destroy_instance(a); return bad("fault-ignored", v.faulted + " failed but the call returned " + std::to_string(rc)); } if (!hit && rc != 0) { asm_destroy_instance(a); return bad("harness", "empty file failed without fault"); } break;
     case 4: hit = api("asm_assemble_file_counting_chunks", [&] { return asm_assemble_file_counting_chunks(a, pth.data(), cchunk4, &cnt); }, rc); if (hit && rc != EXIT_FAILURE) { asm_destroy_instance(a); return bad("fault-ignored", v.faulted + " failed but the call returned " + std::to_string(rc)); } if (!hit && rc != 0) { asm_destroy_instance(a); return bad("harness", "file program failed without fault"); } break;
@@ -253,7 +271,7 @@ static FI run17(const Pool &P, const C17Case &c) {
     if (asm_get_offset(a) != n || memcmp((uint8_t *)asm_get_code(a) + off1, big.data() + off1, n - off1)) { asm_destroy_instance(a); return bad("incomplete-success", "the call returned EXIT_SUCCESS (" + (v.faulted.empty() ? std::string("no fault") : v.faulted) + ") but its code differs from the caller-buffer result (offset " + std::to_string(asm_get_offset(a)) + " vs " + std::to_string(n) + ")"); }
   }
   // ---- the instance stays usable: more code can be appended (and grows the buffer again) without corrupting anything
-  if (c.scenario == 2 || c.scenario == 6 || c.scenario == 3) {
+  if (c.scenario == 2 || c.scenario == 6 || c.scenario == 3 || c.scenario == 9) {
     int off_before = asm_get_offset(a);
     if (off_before >= 0) {
       hit = api("asm_assemble_str(more)", [&] { return asm_assemble_str(a, prog_long.c_str()); }, rc);
@@ -281,7 +299,7 @@ void prop_c17(hz::Ctx &ctx) {
   if (!have_fi()) { hz::Failure f; f.caseid = "C17|nofi"; f.text = "engine built without fault layer"; f.symptom = "harness"; f.tags = {"sym:harness"}; ctx.fail(f); return; }
   const Pool &P = pool(ctx);
   int variants = ctx.thorough() ? 80 : 16;
-  for (int scn = 0; scn < 9; scn++) for (int var = 0; var < (scn >= 7 ? std::min(variants, 6) : variants); var++) {
+  for (int scn = 0; scn < 10; scn++) for (int var = 0; var < (scn >= 7 && scn != 9 ? std::min(variants, 6) : variants); var++) {
     C17Case base; base.scenario = scn; base.seed = ctx.seed * 131 + scn * 17 + var; base.poolseed = ctx.seed;
     // counting run: how many interposed calls does the scenario make (identical in every worker)
     FI cnt = run17(P, base);
